@@ -20,7 +20,8 @@ TLC = ("java -Xss512m -Xmx%s -XX:+UseParallelGC -cp /opt/veriftools/tla/tla2tool
 
 # (module, config, workers, heap, timeout s)
 FLOW_QUICK = [("MC_flow.tla", "MC_flow_out.cfg", 6, "6g", 600), ("MC_flow.tla", "MC_flow_wrap.cfg", 2, "2g", 300),
-              ("MC_flow.tla", "MC_cover_q1.cfg", 2, "2g", 300), ("MC_flow.tla", "MC_cover_q2.cfg", 2, "2g", 300)]
+              ("MC_flow.tla", "MC_cover_q1.cfg", 2, "2g", 300), ("MC_flow.tla", "MC_cover_q2.cfg", 2, "2g", 300),
+              ("MC_flow.tla", "MC_flow_mixq.cfg", 4, "4g", 600)]
 FLOW_THOROUGH = FLOW_QUICK + [("MC_flow.tla", "MC_cover_q3.cfg", 4, "4g", 600), ("MC_flow.tla", "MC_flow_mix.cfg", 8, "8g", 1800),
                               ("MC_flow.tla", "MC_flow_in.cfg", 12, "12g", 3600), ("MC_flow.tla", "MC_cover_a.cfg", 8, "8g", 1800)]
 FLOW_PROPS = ["C01", "C02", "C03", "C04", "C05", "C06", "C07", "C11", "C12", "C13", "C16", "C18"]
